@@ -1,4 +1,5 @@
 import Btdht.Props.C03
+import Btdht.Proofs.Sorted
 /-!
 # C02 — A search reaches the 8 closest nodes, announces to them, yields every peer found
 
@@ -17,12 +18,16 @@ Model: `Btdht.Lookup`. Proved for all runs:
   answered with a token, each carrying the latest token of that very node, the searched info-hash,
   the own id and the configured port (`none` = implied_port) (`C02_announce_content`,
   `C02_announce_targets`).
+* the candidate list of every stored search is sorted by XOR distance to the info-hash in every
+  state of every run — the binary search of `insert_sorted_node` is proved to return a correct
+  insertion point (`C02_candidates_sorted`) — hence the announce targets are the **closest** token
+  holders: every candidate that answered with a token and is not announced to is at least as far
+  from the info-hash as every announce target (`C02_announce_closest`).
 NOT proved in Lean: the liveness part under the environment hypotheses E1–E4 of DESIGN.md (that
-every one of the 8 closest nodes is actually queried and answers before the end-game elapses, and
-that the candidate list is sorted — invariants I1–I5). The end-to-end statement "announce targets
-= the 8 closest nodes of the network" is decided by the tie: the `[C02]` oracle of the `handler`
-engine on truthful simulated networks of 1..300 nodes (uniform and clustered ids). C02 is
-**partial** in this sense.
+every one of the 8 closest nodes of the *network* becomes a candidate, is queried and answers
+before the end-game elapses). The end-to-end statement "announce targets = the 8 closest nodes of
+the network" is decided by the tie: the `[C02]` oracle of the `handler` engine on truthful
+simulated networks of 1..300 nodes (uniform and clustered ids). C02 is **partial** in this sense.
 -/
 namespace Btdht
 
@@ -101,5 +106,44 @@ theorem C02_announce_targets (l : Lookup) :
   unfold Lookup.announceTargets
   refine ⟨by rw [h8]; exact List.length_take_le _ _, fun e he => (List.mem_filter.mp (List.mem_of_mem_take he)).2, ?_⟩
   exact (List.take_sublist _ _).trans List.filter_sublist
+
+/-- **C02 (the candidate list is sorted)**: in every state the handler reaches, the candidate list
+of every stored search is sorted by its distance field (lexicographic order of the 20-byte XOR
+distance: `bytesCmp`), and that field is the XOR distance of the node's id to the info-hash. -/
+theorem C02_candidates_sorted (selfId : Bytes) (v6 ro : Bool) (port : Option Nat) (fa : List Addr) (t0 : Nat)
+    (ops : List (HOp × Nat)) (l : Lookup) (hl : l ∈ ((HState.new selfId v6 ro port fa t0).runOps ops).lookups) :
+    (l.sorted.map (·.1)).Pairwise (fun a b => bytesCmp a b ≠ .gt) ∧
+    ∀ e ∈ l.sorted, e.1 = xorBytes l.target e.2.1.id := by
+  have h := runOps_sort ops (HState.new selfId v6 ro port fa t0) (by intro m hm; simp [HState.new] at hm) l hl
+  exact ⟨h.sorted, h.dist⟩
+
+/-- **C02 (the announces go to the closest token holders)**: with a sorted candidate list, every
+candidate that answered with a token but is not among the announce targets is at least as far from
+the info-hash as every announce target; and there are such left-over candidates only when 8
+announces are made. -/
+theorem C02_announce_closest (l : Lookup) (h : LookupSorted l) :
+    (∀ e ∈ l.announceTargets, ∀ c ∈ (l.sorted.filter (fun e => l.tokens.any (·.1 = e.2.1))).drop Constants.ANNOUNCE_PICK_NUM,
+      bytesCmp (xorBytes l.target e.2.1.id) (xorBytes l.target c.2.1.id) ≠ .gt) ∧
+    (l.announceTargets.length < 8 → (l.sorted.filter (fun e => l.tokens.any (·.1 = e.2.1))).drop Constants.ANNOUNCE_PICK_NUM = []) := by
+  have h8 : Constants.ANNOUNCE_PICK_NUM = 8 := by decide
+  constructor
+  · intro e he c hc
+    have hsub : (l.sorted.filter (fun e => l.tokens.any (·.1 = e.2.1))).Sublist l.sorted := List.filter_sublist
+    have hpw : (l.sorted.filter (fun e => l.tokens.any (·.1 = e.2.1))).Pairwise (fun a b => bLe a.1 b.1) := by
+      have := h.sorted
+      unfold SortedKeys at this
+      rw [List.pairwise_map] at this
+      exact this.sublist hsub
+    rw [← List.take_append_drop Constants.ANNOUNCE_PICK_NUM (l.sorted.filter (fun e => l.tokens.any (·.1 = e.2.1))),
+      List.pairwise_append] at hpw
+    have := hpw.2.2 e he c hc
+    rw [h.dist e (hsub.subset (List.mem_of_mem_take he)), h.dist c (hsub.subset (List.mem_of_mem_drop hc))] at this
+    exact this
+  · intro hlt
+    unfold Lookup.announceTargets at hlt
+    rw [List.length_take] at hlt
+    apply List.drop_eq_nil_of_le
+    rw [h8] at hlt ⊢
+    omega
 
 end Btdht
